@@ -76,6 +76,7 @@ func spec_mfWF(mf *MultiFileAppendable) bool {
 //@   assigns internal
 
 //@ func (*MultiFileAppendable).DiscardUpto
+//@   divmod abstract
 //@   requires mf.fileSize > 0 && mf.currAppID >= 0 && mf.currApp != nil && mf.hooks != nil && mf.appendables.cache != nil && (mf.readOnly || len(mf.writeBuffer) > 0)
 //@   ensures wf: mf.fileSize > 0 && mf.currAppID >= 0 && mf.currApp != nil && mf.hooks != nil && mf.appendables.cache != nil && (mf.readOnly || len(mf.writeBuffer) > 0)
 //@   ensures same: mf.fileSize == old(mf.fileSize) && mf.currAppID == old(mf.currAppID) && mf.currApp == old(mf.currApp)
